@@ -69,6 +69,9 @@ type vhnlScenario struct {
 	// InflightAtLost: in the inflight phase slow requests also ENTER at the node that is going to be lost, for endpoints whose
 	// listeners sit on the survivors (they keep the departing node's proxy busy for delay_ms, whatever happens to its upstreams)
 	InflightAtLost bool `json:"inflight_at_lost"`
+	// DropClean: the refused reconnection attempts are accepted and then closed CLEANLY without a byte of answer (what a layer-4
+	// load balancer does while it still points at the lost node) instead of being reset
+	DropClean bool `json:"drop_clean"`
 }
 
 type vhnlRNode struct {
@@ -386,6 +389,7 @@ type vhnlFront struct {
 	conns   []net.Conn
 	drop    int // connections still to refuse
 	dropped int
+	clean   bool // refuse by accepting, reading the request and closing cleanly (EOF at the client) instead of resetting
 }
 
 func vhnlNewFront(order []*vhnlNode) *vhnlFront {
@@ -415,7 +419,20 @@ func (f *vhnlFront) handle(c net.Conn) {
 		// the client's connect loop has to retry with backoff
 		f.drop--
 		f.dropped++
+		clean := f.clean
 		f.mu.Unlock()
+		if clean {
+			// read what the client sends (so that closing does not reset), then FIN
+			_ = c.SetReadDeadline(time.Now().Add(150 * time.Millisecond))
+			buf := make([]byte, 4096)
+			for {
+				if _, err := c.Read(buf); err != nil {
+					break
+				}
+			}
+			_ = c.Close()
+			return
+		}
 		vhnlAbort(c)
 		return
 	}
@@ -790,6 +807,7 @@ func vhnlRun(sc vhnlScenario) (obs vhnlObs) {
 		if atLoss[i] == lost.id {
 			l.front.mu.Lock()
 			l.front.drop = sc.DropReconnects
+			l.front.clean = sc.DropClean
 			l.front.mu.Unlock()
 		}
 	}
